@@ -2340,3 +2340,142 @@ func (c *Ctx) r0920(pk *packages.Package, rule string) {
 
 	}
 }
+
+// R01.57: an operand that De Morgan's rewrite negates is grouped whenever its level is below the unary level.
+func (c *Ctx) r0157(pk *packages.Package) {
+	const rule = "R01.57"
+	c.R.Rule(rule, "js.optimizeUnaryExpr turns `!(a||b)` into `!a&&!b`: each operand gets a `!` in front, which binds tighter than every binary operator, so an operand whose own level is below js.OpUnary needs parentheses (`!(a<b||c||d)`: the left operand `a<b||c` must become `!(a<b||c)`, not `!a<b||c`). The condition under which the function decides to add the group around an operand — the if statement that sets the flag guarding `binary.X = &js.GroupExpr{…}` — is evaluated for every level p of the operand with T[op] <= p < js.OpUnary, for op in {||, &&} and T the precedence table the condition consults (evaluated statically), with the function's boolean locals false: it holds for all of them. Below T[op] the operand is a GroupExpr already")
+	info := pk.TypesInfo
+	fd := c.fn(rule, pk, "optimizeUnaryExpr")
+	if fd == nil {
+		return
+	}
+	dep := c.P.Dep(pjs)
+	constOf := func(name string) (int64, bool) {
+		if dep == nil {
+			return 0, false
+		}
+		k, ok := dep.Types.Scope().Lookup(name).(*types.Const)
+		if !ok {
+			return 0, false
+		}
+		return constant.Int64Val(k.Val())
+	}
+	unary, ok1 := constOf("OpUnary")
+	orTok, ok2 := constOf("OrToken")
+	andTok, ok3 := constOf("AndToken")
+	if !ok1 || !ok2 || !ok3 {
+		c.R.Unres(rule, "js.optimizeUnaryExpr/levels", c.pos(fd), "js.OpUnary / js.OrToken / js.AndToken not found")
+		return
+	}
+	// the flags that guard the creation of a group: if V { S = &js.GroupExpr{…} }
+	n := 0
+	ast.Inspect(fd.Body, func(z ast.Node) bool {
+		ifs, ok := z.(*ast.IfStmt)
+		if !ok || len(ifs.Body.List) != 1 {
+			return true
+		}
+		flag, ok := ast.Unparen(ifs.Cond).(*ast.Ident)
+		if !ok {
+			return true
+		}
+		as, ok := ifs.Body.List[0].(*ast.AssignStmt)
+		if !ok || len(as.Rhs) != 1 || !strings.Contains(nospace(str(as.Rhs[0])), "js.GroupExpr{") {
+			return true
+		}
+		slot := nospace(str(as.Lhs[0]))
+		fobj := info.Uses[flag]
+		// the statement that sets the flag
+		ast.Inspect(fd.Body, func(y ast.Node) bool {
+			set, ok := y.(*ast.IfStmt)
+			if !ok {
+				return true
+			}
+			sets := false
+			for _, st := range set.Body.List {
+				if a2, ok := st.(*ast.AssignStmt); ok && len(a2.Lhs) == 1 && len(a2.Rhs) == 1 && nospace(str(a2.Rhs[0])) == "true" {
+					if id, ok := a2.Lhs[0].(*ast.Ident); ok && info.Uses[id] == fobj {
+						sets = true
+					}
+				}
+			}
+			if !sets {
+				return true
+			}
+			n++
+			construct := fmt.Sprintf("js.optimizeUnaryExpr/negated operand %s grouped below the unary level", slot)
+			// abstract the condition: table look-up -> L, exprPrec(...) -> p, boolean locals -> false
+			var tableName string
+			var lookups, precs, bools []string
+			ast.Inspect(set.Cond, func(q ast.Node) bool {
+				switch e := q.(type) {
+				case *ast.IndexExpr:
+					if id, ok := ast.Unparen(e.X).(*ast.Ident); ok {
+						if v, isVar := info.Uses[id].(*types.Var); isVar && v.Parent() == pk.Types.Scope() {
+							tableName = id.Name
+							lookups = append(lookups, nospace(str(e)))
+							return false
+						}
+					}
+				case *ast.CallExpr:
+					if strings.HasSuffix(calleeName(info, e), "/js.exprPrec") {
+						precs = append(precs, nospace(str(e)))
+						return false
+					}
+				case *ast.Ident:
+					if v, isVar := info.Uses[e].(*types.Var); isVar && v.Parent() != pk.Types.Scope() && isBoolType(v.Type()) {
+						bools = append(bools, e.Name)
+					}
+				}
+				return true
+			})
+			if tableName == "" || len(precs) == 0 {
+				c.R.Unres(rule, construct, c.pos(set), "the condition does not have the shape table[op] … exprPrec(operand): "+str(set.Cond))
+				return true
+			}
+			val, _, err := c.Ev.PackageVar(pk, tableName)
+			m, isMap := val.(*eval.Map)
+			if err != nil || !isMap {
+				c.R.Unres(rule, construct, c.pos(set), "table "+tableName+" cannot be evaluated")
+				return true
+			}
+			var missing []string
+			for _, op := range []struct {
+				name string
+				tok  int64
+			}{{"||", orTok}, {"&&", andTok}} {
+				lv, has := m.Get(op.tok)
+				L, isInt := lv.(int64)
+				if !has || !isInt {
+					c.R.Unres(rule, construct, c.pos(set), tableName+" has no entry for "+op.name)
+					return true
+				}
+				for p := L; p < unary; p++ {
+					env := map[string]int64{}
+					for _, l := range lookups {
+						env[l] = L
+					}
+					for _, pe := range precs {
+						env[pe] = p
+					}
+					for _, b := range bools {
+						env[b] = 0
+					}
+					v, ok := evalIntExpr(info, set.Cond, env)
+					if !ok {
+						c.R.Unres(rule, construct, c.pos(set), "condition cannot be evaluated: "+str(set.Cond))
+						return true
+					}
+					if v == 0 {
+						missing = append(missing, fmt.Sprintf("%s with an operand of level %d", op.name, p))
+					}
+				}
+			}
+			c.R.Check(len(missing) == 0, rule, construct, c.pos(set), "holds for every operand level from "+tableName+"[op] up to js.OpUnary-1, for || and &&",
+				"no group is added for "+strings.Join(missing, "; ")+": the `!` then binds to the first operand of the operand only — `x=!(a<b||c||d)` → `x=!a<b||c&&!d`")
+			return true
+		})
+		return true
+	})
+	c.R.Floor(rule, "group decisions of optimizeUnaryExpr", n, 2)
+}
